@@ -98,6 +98,8 @@ func init() {
 			for _, crlf := range []bool{false, true} {
 				out = append(out, c17Spec{Kind: "wsline", CRLF: crlf})
 			}
+			// a very short last line without line end (1-2 bytes, with or without a carriage return) behind 0-2 ordinary lines
+			out = append(out, c17Spec{Kind: "tail"})
 			// one very long line (many arguments) among short ones: lengths around the 4 KiB and 8 KiB buffer sizes of the
 			// standard readers, and up to just below the 64 KiB line limit of the simulator's scanner
 			for _, crlf := range []bool{false, true} {
@@ -426,6 +428,32 @@ func c17Run(raw json.RawMessage, c *mc.Ctx) {
 			}
 		}
 		rec(nil)
+		c.Sample(sp)
+	case "tail":
+		for _, eol := range []string{"\n", "\r\n"} {
+			for n := 0; n <= 2; n++ {
+				for _, tail := range []string{"x", "x\r", "xy", "xy\r", "x\r\n", "x\n"} {
+					var b strings.Builder
+					for i := 1; i <= n; i++ {
+						b.WriteString(c17Line(i, false) + eol)
+					}
+					b.WriteString(tail)
+					content := []byte(b.String())
+					os.WriteFile(file, content, 0o644)
+					cls := " short-last-line"
+					c17WsLines = 1 // the short line is no valid batch line: it runs as a failing run that names no line
+					c17Deadline = 20 * time.Second
+					for _, k := range []int{1, 2} {
+						h := mc.NewHasher().S("tail").S(string(content)).I(k).Sum()
+						c.State(h)
+						c.NonTrivial(h)
+						c17Judge(c, calc, sim, file, n+1, k, true, fmt.Sprintf("file %q", content), cls)
+					}
+					c17WsLines = 0
+					c17Deadline = 120 * time.Second
+				}
+			}
+		}
 		c.Sample(sp)
 	case "longline":
 		eol := "\n"
